@@ -98,6 +98,14 @@ def planSt (w : World) (hc : HCfg) : Ty → HVal → Option Cell → Option Obj 
       match itemsOf view with
       | some xs => .build hc.cfg.detailed (xs.length != ts.length) (.coll .tuple) (zipTasks (ts.map .st) xs)
       | none => noItems v
+  -- NamedTuple: the heterogeneous-tuple hook over the field types, then `cl(*res)` (a new instance)
+  | .nt c, v, view, _ =>
+      if w.isNT c then
+        match itemsOf view with
+        | some xs => .build hc.cfg.detailed (xs.length != (w.ntTys c).length) (.inst c (w.ntNames c))
+                       (zipTasks ((w.ntTys c).map .st) xs)
+        | none => noItems v
+      else .fail
   | .map _ kt vt, _, some (.dict kvs), _ => .build hc.cfg.detailed false .dict (kvTasks (.st kt) (.st vt) kvs)
   | .map _ _ _, _, some _, _ => .unmodelled            -- `dict(iterable of pairs)`
   | .map _ _ _, v, none, _ => noItems v
@@ -134,7 +142,7 @@ def planSt (w : World) (hc : HCfg) : Ty → HVal → Option Cell → Option Obj 
 def plan (w : World) (hc : HCfg) (n : Nat) (call : Call) (v : HVal) (view : Option Cell) (obj : Option Obj) : Prog :=
   match call with
   | .un t => planUn w hc n t v view
-  | .unAny => planUnAny w hc.cfg v view
+  | .unAny => planUnAny w hc n v view
   | .st t => planSt w hc t v view obj
   | .pass => .ident v
   | .fresh o => .fresh o
